@@ -42,6 +42,19 @@ def sub_tail_only(got, want, toks, flt):
         covered = sum(t['end'][0] - t['start'][0] for t in inside)
         return covered == b - a and all(not lexsim.keeps(flt, t['kind']) for t in inside)
     def go(g, w):
+        # nothing consumed at all (reference: an empty capture) but the capture holds filtered tokens: the same skip
+        if isinstance(w, list) and isinstance(g, list) and len(w) >= 2 and w[1] == 'EMPTY' and g and g[0] == w[0]:
+            if w[0] == 'text':
+                a, b = int(g[1]), int(g[2])
+                if a == b: return True
+                if a < b and region_filtered(a, b): diff[0] = True; return True
+                return False
+            (ga, gb) = g[1].split('~')
+            if not go(g[2], w[2]): return False
+            a, b = int(ga.split(':')[0]), int(gb.split(':')[0])
+            if a == b: return True
+            if a < b and region_filtered(a, b): diff[0] = True; return True
+            return False
         if isinstance(w, list) and isinstance(g, list) and w and g and w[0] == g[0] == 'text' and len(w) == 3 and len(g) == 3 and w[1] != 'EMPTY':
             a, b, a2, b2 = int(g[1]), int(g[2]), int(w[1]), int(w[2])
             if (a, b) == (a2, b2): return True
